@@ -293,6 +293,7 @@ bool g_busy_pub(int slot) { return slot >= 0 && slot < (int)H.slots.size() && g_
 // after a few calls within one operation it uninstalls itself (an unsatisfiable request must not loop)
 // (mimalloc's C build finds the handler through the symbol of std::get_new_handler(), for which it carries a weak fallback that returns
 // NULL; the harness provides the strong definition, as a statically linked C++ runtime does)
+size_t heap_used_sum(mi_heap_t* h, size_t* pages);
 static int g_nh_calls = 0;
 static void (*g_new_handler)() = nullptr;
 extern "C" void (*sim_std_get_new_handler(void))(void) __asm__("_ZSt15get_new_handlerv");
@@ -406,6 +407,11 @@ static void do_realloc(const Op& op) {
   g_busy[s] = 1;
   size_t newreq = 0; size_t align = 0, offset = 0; bool zero = false; bool is_expand = false; bool frees_on_fail = false; bool overflow = false;
   void* q = nullptr; int rc = 0;
+  // accounting ("the old block is released exactly when a different pointer is returned"): with one thread and nothing that moves pages between
+  // heaps, the number of used blocks over this thread's heaps is the same before and after a moving re-allocation
+  const bool count_ok = old != nullptr && sched_nthreads() <= 1 && old->prog == T->prog && old->heap >= 0 && old->orphan_kind == 0 && !H.forced_abandon_possible && mi_option_get(mi_option_target_segments_per_thread) <= 0;
+  auto used_total = [&]() { size_t n = 0; for (size_t i = 0; i < H.heaps.size(); i++) { MHeap& m = H.heaps[i]; if (!m.alive || m.prog != T->prog) continue; mi_heap_t* hh = (m.kind == HK_BACKING ? heap_ptr((int)i) : m.h); if (hh) n += heap_used_sum(hh, nullptr); } return n; };
+  const size_t used_before = count_ok ? used_total() : 0;
   const bool fail_ok = null_allowed(op);
   if (fail_ok) expect_errors(EB_ENOMEM | EB_EOVERFLOW);
   auto mul = [&](uint64_t x, uint64_t y) { __uint128_t m = (__uint128_t)x * y; if (m >> 64) overflow = true; return (size_t)m; };
@@ -472,6 +478,7 @@ static void do_realloc(const Op& op) {
     return;
   }
   if (q != p) T->alloc_ok = true;     // an in-place result does not show that this thread's heap exists
+  if (count_ok && q != p && !is_expand) { const size_t used_after = used_total(); if (used_after != used_before) sim_violation("realloc_leak", "%s(%p, ...) returned a different pointer %p but the number of used blocks of the thread's heaps went from %zu to %zu (the old block was %s)", op_names[op.code], p, q, used_before, used_after, used_after > used_before ? "not released" : "released twice, or another block was lost"); }
   sched_set_passthrough(true);
   size_t usable = mi_usable_size(q);
   sched_set_passthrough(false);
